@@ -258,6 +258,10 @@ func runRT(cfg vsched.Config, sc *RTScn, twice bool) *RTResult {
 			spec.SackPermitted = false
 		case "timestamps":
 			spec.Timestamps = true
+		case "timestamps-bsd-option-order":
+			spec.Timestamps, spec.BSDOrder = true, true
+		case "bsd-option-order":
+			spec.BSDOrder = true
 		case "duplicate-synack":
 			spec.LateCopyMs = 15
 		case "isn-near-wrap":
